@@ -1,4 +1,5 @@
 import AtreeProofs.Codec.RoundTrip
+import AtreeProofs.Codec.EncLemmasC
 import AtreeProofs.ArrayInv
 /-
   C06 — Reported slab sizes equal the bytes actually written.
@@ -102,5 +103,71 @@ theorem no_uint16_truncation (T : Nat) (hT : legalThreshold T = true) (top : Boo
   have hl := length_le_sumSizes s.elems (fun e he => (h.elems_ok e he).1)
   have := h.size_eq
   omega
+
+/-! ## Second part of the model: map slabs, inlined children, wrappers, compact maps
+
+  Sizes of these kinds are functions of the content (`Stor.size`, `MEls.size`, `MapData.size`,
+  `ArrData.size`, `MapMeta.size`: what the decoders compute); that the implementation's header
+  fields hold these values is checked on every `ENC` line of the `codec` stream.  Hypotheses:
+  `Stor.OK` / `MEls.OK` (plain values are values of the harness, one digest per element of an
+  `hkeyElements`), `noCompact` (no inlined map is written in the compact form) resp. `nodupKeys`
+  (the keys of a compact-encoded map are distinct).  `hroot`: a root has no sibling. -/
+
+/-- A storable of any shape (wrapped, inlined array / map at any depth, collision groups) that holds
+    no compact map: the bytes written in place are exactly its computed size. -/
+theorem enc_len_stor (s : Stor) (xs : List XD) (ok : s.OK) (nc : s.noCompact) :
+    (encSt s xs).1.length = s.size :=
+  lenSt_eq s xs ok nc
+
+/-- With compact maps (keys and digests hoisted into the shared section): at most the computed size. -/
+theorem enc_len_stor_compact (s : Stor) (xs : List XD) (ok : s.OK) (nd : s.nodupKeys) :
+    (encSt s xs).1.length ≤ s.size :=
+  lenSt_le s xs ok nd
+
+/-- `hkeyElements` / `singleElements` with inline and external collision groups. -/
+theorem enc_len_elements (els : MEls) (xs : List XD) (ok : els.OK) (nc : els.noCompact) :
+    (encMEls els xs).1.length = els.size :=
+  lenMEls_eq els xs ok nc
+
+/-- Map index slab: encoded length = computed size + extra-data section. -/
+theorem enc_len_mindex (m : MapMeta) : (encodeMapMeta m).length = m.size + mapExtraLen m.extra :=
+  Codec.enc_len_mindex m
+
+/-- Map data slab (root / non-root / external collision group), inlined children allowed, no compact
+    map: encoded length, plus 16 exactly when a non-root slab has no right sibling, equals the
+    computed size plus the root's extra-data section plus the shared inlined-extra-data section. -/
+theorem enc_len_mdata (s : MapData) (ok : s.els.OK) (nc : s.els.noCompact)
+    (hroot : s.extra.isSome = true → s.next = SlabID.undef) :
+    (encodeMapData s).length + (if s.extra.isNone ∧ s.next = SlabID.undef then 16 else 0)
+      = s.size + mapExtraLen s.extra + (encodeIEDSection (encMEls s.els []).2).length :=
+  Codec.enc_len_mdata s ok nc hroot
+
+/-- The same with compact maps: the written bytes are at most what is reported (the hoisted keys and
+    digests are in the shared section, which is accounted on the right-hand side). -/
+theorem enc_len_mdata_compact (s : MapData) (ok : s.els.OK) (nd : s.els.nodupKeys)
+    (hroot : s.extra.isSome = true → s.next = SlabID.undef) :
+    (encodeMapData s).length + (if s.extra.isNone ∧ s.next = SlabID.undef then 16 else 0)
+      ≤ s.size + mapExtraLen s.extra + (encodeIEDSection (encMEls s.els []).2).length :=
+  Codec.enc_len_mdata_le s ok nd hroot
+
+/-- Array data slab whose elements are general storables (wrapped values, inlined arrays / maps). -/
+theorem enc_len_adata (a : ArrData) (ok : okSts a.elems) (nc : noCompactSts a.elems)
+    (hroot : a.ty.isSome = true → a.next = SlabID.undef) :
+    (encodeArrData a).length + (if a.ty.isNone ∧ a.next = SlabID.undef then 16 else 0)
+      = a.size + (match a.ty with | some t => (encodeExtraData t).length | none => 0) +
+          (encodeIEDSection (encSts a.elems []).2).length :=
+  Codec.enc_len_adata a ok nc hroot
+
+theorem enc_len_adata_compact (a : ArrData) (ok : okSts a.elems) (nd : nodupKeysSts a.elems)
+    (hroot : a.ty.isSome = true → a.next = SlabID.undef) :
+    (encodeArrData a).length + (if a.ty.isNone ∧ a.next = SlabID.undef then 16 else 0)
+      ≤ a.size + (match a.ty with | some t => (encodeExtraData t).length | none => 0) +
+          (encodeIEDSection (encSts a.elems []).2).length :=
+  Codec.enc_len_adata_le a ok nd hroot
+
+/-- Large-value slab holding a wrapped value. -/
+theorem enc_len_storableG (s : Stor) (ok : s.OK) (nc : s.noCompact) :
+    (encodeStorableSlabG s).length = versionAndFlagSize + s.size :=
+  Codec.enc_len_storableG s ok nc
 
 end Atree.C06
